@@ -584,29 +584,60 @@ Arguments WOk {A}. Arguments WErr {A}. Arguments WOutOfFuel {A}.
 Section Wrappers.
   Variable S N : Type.
   Variable next : S -> istep S N.
+  Variable eqb : N -> N -> bool.   (* Go's == on *Node *)
+  (* yieldsNodeSet(exp), query.go:99-115: does the expression evaluate to a node-set (as opposed
+     to a boolean / number / string)?  A property of the expression, probed at most once. *)
+  Variable node_set : bool.
 
-  (* query.go:100-104: for iter.MoveNext() { ret = append(ret, nodeFromIter(iter)) } *)
-  Fixpoint match_all_loop (fuel : nat) (s : S) (acc : list N) : wres (list N) :=
+  (* MatchAll BEFORE fix 3036423 (N11): for iter.MoveNext() { ret = append(ret, nodeFromIter(iter)) } *)
+  Fixpoint match_all_loop_old (fuel : nat) (s : S) (acc : list N) : wres (list N) :=
     match fuel with
     | 0 => WOutOfFuel
     | Datatypes.S f =>
         match next s with
-        | INext n s' => match_all_loop f s' (n :: acc)
+        | INext n s' => match_all_loop_old f s' (n :: acc)
         | IEnd => WOk (rev acc)
         | IPanic => WErr EQueryFailed
         end
     end.
 
-  (* query.go:85-105 MatchAll.  is_dot: exprStr == "."; compiled: loadXPathExpr then QueryIter
+  (* query.go:131-143, the loop of MatchAll as repaired: when the context node comes back right
+     after itself and the query has not been probed yet, probe it; a query that is not a node-set
+     query selects the context node only (ret[:1]). *)
+  Fixpoint match_all_loop (fuel : nat) (self : N) (s : S) (acc : list N) (probed : bool)
+    : wres (list N) :=
+    match fuel with
+    | 0 => WOutOfFuel
+    | Datatypes.S f =>
+        match next s with
+        | INext cur s' =>
+            if negb probed && eqb cur self
+               && match acc with last :: _ => eqb last self | [] => false end
+            then if node_set then match_all_loop f self s' (cur :: acc) true
+                 else WOk (firstn 1 (rev acc))
+            else match_all_loop f self s' (cur :: acc) probed
+        | IEnd => WOk (rev acc)
+        | IPanic => WErr EQueryFailed
+        end
+    end.
+
+  (* query.go:118-146 MatchAll.  is_dot: exprStr == "."; compiled: loadXPathExpr then QueryIter
      (None = compilation error) *)
   Definition match_all (is_dot : bool) (self : N) (compiled : option S) (fuel : nat) : wres (list N) :=
     if is_dot then WOk [self]
     else match compiled with
          | None => WErr ECompile
-         | Some s => match_all_loop fuel s []
+         | Some s => match_all_loop fuel self s [] false
          end.
 
-  (* query.go:110-135 MatchSingle *)
+  Definition match_all_old (is_dot : bool) (self : N) (compiled : option S) (fuel : nat) : wres (list N) :=
+    if is_dot then WOk [self]
+    else match compiled with
+         | None => WErr ECompile
+         | Some s => match_all_loop_old fuel s []
+         end.
+
+  (* query.go:151-176 MatchSingle *)
   Definition match_single (is_dot : bool) (self : N) (compiled : option S) : wres N :=
     if is_dot then WOk self
     else match compiled with
@@ -629,13 +660,16 @@ Section Wrappers.
     match next s with INext _ _ => true | _ => false end.
 End Wrappers.
 Arguments match_all_loop {S N}. Arguments match_all {S N}. Arguments match_single {S N}.
-Arguments match_any {S N}.
+Arguments match_any {S N}. Arguments match_all_loop_old {S N}. Arguments match_all_old {S N}.
 
-(* a scripted iterator: the nodes idr.QueryIter was seen to produce, and how it stopped *)
-Definition script_next (panics : bool) (s : list N) : istep (list N) N :=
+(* a scripted iterator: the nodes idr.QueryIter was seen to produce, and how it went on: it
+   ended, it panicked, or (a non node-set query whose value is true) it kept yielding the context
+   node for as long as the harness asked *)
+Inductive tail := TEnd | TPanic | TLoopSelf.
+Definition script_next (tl : tail) (self : N) (s : list N) : istep (list N) N :=
   match s with
   | n :: r => INext n r
-  | [] => if panics then IPanic else IEnd
+  | [] => match tl with TEnd => IEnd | TPanic => IPanic | TLoopSelf => INext self [] end
   end.
 
 (* ==== correspondence cases ===================================================================== *)
@@ -747,8 +781,9 @@ Record wcase := mkW {
   w_dot : bool;             (* the expression is "." *)
   w_self : N;               (* the start node *)
   w_compiles : bool;
+  w_node_set : bool;        (* the expression evaluates to a node-set (what yieldsNodeSet probes) *)
   w_iter : list N;
-  w_iter_panics : bool;
+  w_tail : tail;
   w_all : wout (list N);
   w_single : wout N;
   w_any : bool;
@@ -764,9 +799,10 @@ Definition wres_wout {A} (eqb : A -> A -> bool) (m : wres A) (o : wout A) : bool
   end.
 
 Definition check_wcase (c : wcase) : bool :=
-  let nx := script_next (w_iter_panics c) in
+  let nx := script_next (w_tail c) (w_self c) in
   let compiled := if w_compiles c then Some (w_iter c) else None in
-  wres_wout (list_eqb N.eqb) (match_all nx (w_dot c) (w_self c) compiled (S (length (w_iter c)))) (w_all c)
+  wres_wout (list_eqb N.eqb)
+    (match_all nx N.eqb (w_node_set c) (w_dot c) (w_self c) compiled (4 + length (w_iter c))) (w_all c)
   && wres_wout N.eqb (match_single nx (w_dot c) (w_self c) compiled) (w_single c)
   && (if w_compiles c then Bool.eqb (match_any nx (w_iter c)) (w_any c) else true).
 
